@@ -6,10 +6,19 @@ import gffutils
 from gv.model import dbutil
 
 ID = "C02"
-RULE = ("every DAG on k labelled features whose edges respect one topological order (2^(k(k-1)/2) graphs) x a dangling Parent value on "
-        "at most one feature x every permutation of the lines; for each database every (feature, level, featuretype, order_by) query of "
-        "children/parents plus iter_by_parent_childs is compared with the closure of the Parent lists. Non-trivial = the graph has a "
-        "multi-parent node or a path of length >= 2 or a dangling value or the lines are not in topological order")
+RULE = (
+    "Part 'graphs' (shards = k x ranges of graph masks): every DAG on k = 1..4 (quick) / 1..5 (thorough) labelled features whose edges "
+    "respect one topological order (2^(k(k-1)/2) graphs) x a dangling Parent value 'ghost' on none or exactly one feature x every "
+    "permutation of the k lines; one id contains a comma written %2C. For each import (real create_db, :memory:) every (feature, level "
+    "in {None,1,2}, featuretype in {None,'exon',('exon','mRNA')}, order_by in {None,'start',('seqid','start')}) query of children and "
+    "parents (for k = 5 order_by is varied only with featuretype None) is compared with the two-level closure of the Parent lists "
+    "(unordered as sets, ordered by start); also children(Feature object), nested iteration (children inside a children loop), two "
+    "interleaved result iterators (zip), db['ghost'] must raise FeatureNotFoundError, stored ids, import must not raise, and "
+    "iter_by_parent_childs(featuretype='gene'). Part 'scale' (1 shard, 3 executions): one 7800-line file (600 genes x 2 mRNAs x 5 "
+    "exons) in top-down, bottom-up and shuffled line order; relation counts per level (7200 / 6000) and children(level=2)/parents of "
+    "three genes are checked. Non-trivial = the graph has a multi-parent node or a path of length >= 2 or a dangling value or the lines "
+    "are not in topological order; every scale execution."
+)
 ASSUMPTIONS = ["unique ids; relations are defined two levels deep (deeper descendants are not relatives)"]
 
 TYPES = ("gene", "mRNA", "exon", "exon", "CDS")
